@@ -58,6 +58,28 @@ pub fn run(args: &Args) {
             cpu.regs.set_iff1(false);
         }
         out.ev(json!({"ev":"reset","m": if m128 {128} else {48}}));
+        // "or the border stored in the last loaded snapshot": SZX files keep the border (chBorder) apart from the last value
+        // written to port 0xFE (chFe); whatever chFe says, the reported colour is the stored border - right after the
+        // load and two frames later (the picture is not judged here)
+        for _ in 0..6 {
+            let mut banks: Vec<Vec<u8>> = (0..8).map(|_| vec![0u8; 16384]).collect();
+            banks[2][..4].copy_from_slice(&[0xED, 0x79, 0x18, 0xFE]);
+            let (b, fe) = (r.below(8) as u8, r.u8());
+            let d = MachineDesc {
+                m128,
+                cpu: CpuDesc { af: 0, bc: 0, de: 0, hl: 0, af_: 0, bc_: 0, de_: 0, hl_: 0, ix: 0, iy: 0,
+                               sp: 0xBFF0, pc: CODE + 2, i: 0, r: 0, iff1: false, iff2: false, im: 1 },
+                border: b,
+                latch: 0,
+                banks,
+            };
+            emu.load_snapshot(Snapshot::Szx(VAsset::new(szx(&d, &SzxOpts { fe: Some(fe), ..Default::default() })))).unwrap();
+            let at_once = emu.border_color() as u8;
+            finish_frame(&mut emu);
+            finish_frame(&mut emu);
+            out.ev(json!({"ev":"szxreport","border":b,"fe":fe,"at_once":at_once,"later":emu.border_color() as u8}));
+        }
+        poke_bytes(&mut emu, CODE, &[0xED, 0x79, 0x18, 0xFE]);
         // first frame: a write establishes the colour the next one starts with (before any write or
         // snapshot the statement defines no colour)
         {
